@@ -191,6 +191,7 @@ func (c *StructCodec) Omit(ptr unsafe.Pointer) bool {
 
 func (c *StructCodec) size(ptr unsafe.Pointer) (size int) {
 	for _, field := range c.fields {
+		verifYield("struct.size")
 		// For most fields we have a pointer to the type, and this is the same
 		// when we call these functions for types within structs or when we
 		// pass an interface to Marshal. But maps are kind of pointers and
@@ -286,6 +287,7 @@ func (c *StructCodec) Descriptor() Descriptor {
 	d.TypeName = c.rtype.Name()
 	d.Elements = make([]Descriptor, len(c.fields))
 	for i, f := range c.fields {
+		verifYield("struct.descriptor")
 		d.Elements[i] = f.codec.Descriptor()
 		d.Elements[i].Index = f.index
 		d.Elements[i].Name = f.name
